@@ -31,6 +31,9 @@ func libSpecWrites(fc *FnCtx, callee *ssa.Function, c *ssa.CallCommon) []HeapVar
 	if _, ok := libPure[name]; ok {
 		return []HeapVar{}
 	}
+	if ws := bufWrites(name); ws != nil {
+		return ws
+	}
 	if strings.HasPrefix(name, "sync.(*Mutex).") || strings.HasPrefix(name, "sync.(*RWMutex).") {
 		return []HeapVar{}
 	}
@@ -135,6 +138,98 @@ func (fc *FnCtx) libCall(st *State, name string, callee *ssa.Function, c *ssa.Ca
 		return tv(te.FOp("floor", args[0].T)), true
 	case "sort.Slice":
 		return fc.sortSlice(st, c, args, in, site), true
+	}
+	if v, ok := fc.bufCall(st, name, args, resTypes); ok {
+		return v, true
+	}
+	return Val{}, false
+}
+
+// ---------------------------------------------------------------------------
+// bytes.Buffer and the msgpack encoder writing to it (C13).
+//
+// Ghost model (one buffer per function, checked): bufLen = bytes written,
+// bufItems = number of values encoded so far, bufEnd[j] = buffer length after
+// the j-th value (bufEnd[0] = length when the encoder was created).
+// Assumed of the codec: a successful Encode appends at least one byte and
+// nothing else touches the buffer.
+
+var (
+	bufLenVar   = HeapVar{"$g.wrLen", SInt, HGhost}
+	bufItemsVar = HeapVar{"$g.wrItems", SInt, HGhost}
+	bufEndVar   = HeapVar{"$g.wrEnd", ArraySort(SInt, SInt), HGhost}
+)
+
+var bufFuncs = map[string]bool{
+	"bytes.(*Buffer).WriteByte": true, "bytes.(*Buffer).Len": true, "bytes.(*Buffer).Bytes": true,
+	"github.com/ugorji/go/codec.NewEncoder": true, "github.com/ugorji/go/codec.(*Encoder).Encode": true,
+	"github.com/ugorji/go/codec.NewDecoder": true,
+}
+
+// touchesBuffer: an unspecified function of package bytes or of the codec may
+// change the buffer behind the ghost model.
+func touchesBuffer(callee *ssa.Function) bool {
+	if callee == nil {
+		return false
+	}
+	pp := fnPkgPath(callee)
+	return pp == "bytes" || pp == "github.com/ugorji/go/codec"
+}
+
+func bufWrites(name string) []HeapVar {
+	switch name {
+	case "bytes.(*Buffer).WriteByte":
+		return []HeapVar{bufLenVar}
+	case "bytes.(*Buffer).Len":
+		return []HeapVar{}
+	case "bytes.(*Buffer).Bytes":
+		return []HeapVar{nextVar}
+	case "github.com/ugorji/go/codec.NewDecoder":
+		return []HeapVar{nextVar}
+	case "github.com/ugorji/go/codec.NewEncoder":
+		return []HeapVar{bufItemsVar, bufEndVar, nextVar}
+	case "github.com/ugorji/go/codec.(*Encoder).Encode":
+		return []HeapVar{bufLenVar, bufItemsVar, bufEndVar}
+	}
+	return nil
+}
+
+func (fc *FnCtx) bufCall(st *State, name string, args []Val, resTypes []types.Type) (Val, bool) {
+	if !bufFuncs[name] {
+		return Val{}, false
+	}
+	fc.notes.Assumed["bytes.Buffer/msgpack encoder ghost model: a successful Encode appends one self-delimiting item of at least one byte; one buffer per function"] = true
+	ln := fc.heapGet(st, bufLenVar)
+	switch name {
+	case "bytes.(*Buffer).WriteByte":
+		fc.heapSet(st, bufLenVar, app(SInt, "+", ln, IntLit(1)))
+		return tv(Term{"ifc_nil", SIfc}), true
+	case "bytes.(*Buffer).Len":
+		return tv(fc.fromInt(ln)), true
+	case "bytes.(*Buffer).Bytes":
+		arr := fc.alloc(st)
+		cp := fc.S.Fresh("bytes.cap", SInt)
+		fc.S.Assume(Implies(st.PC, app(SBool, ">=", cp, ln)), "capacity of Bytes()")
+		fc.TE.ensureSlice()
+		return tv(fc.S.Define("bytes", app("Slice", "mk_slice", arr, IntLit(0), ln, cp))), true
+	case "github.com/ugorji/go/codec.NewDecoder":
+		return tv(fc.alloc(st)), true
+	case "github.com/ugorji/go/codec.NewEncoder":
+		fc.heapSet(st, bufItemsVar, IntLit(0))
+		fc.heapSet(st, bufEndVar, Store(fc.heapGet(st, bufEndVar), IntLit(0), ln))
+		r := fc.alloc(st)
+		return tv(r), true
+	case "github.com/ugorji/go/codec.(*Encoder).Encode":
+		err := fc.S.Fresh("encode.err", SIfc)
+		nl := fc.S.Fresh("encode.len", SInt)
+		ok := Eq(err, Term{"ifc_nil", SIfc})
+		fc.S.Assume(Implies(st.PC, And(app(SBool, ">=", nl, ln), Implies(ok, app(SBool, ">", nl, ln)))), "Encode appends at least one byte on success")
+		items := fc.heapGet(st, bufItemsVar)
+		ni := fc.S.Define("encode.items", Ite(ok, app(SInt, "+", items, IntLit(1)), items))
+		fc.heapSet(st, bufLenVar, nl)
+		fc.heapSet(st, bufEndVar, Ite(ok, Store(fc.heapGet(st, bufEndVar), ni, nl), fc.heapGet(st, bufEndVar)))
+		fc.heapSet(st, bufItemsVar, ni)
+		return tv(err), true
 	}
 	return Val{}, false
 }
